@@ -550,7 +550,13 @@ func deepInputs(n int) map[string]string {
 
 func childDeep(kind string, n int) {
 	src := deepInputs(n)[kind]
-	debug.SetMaxStack(256 << 20)
+	// the default limit is 1 GB; a quarter of it keeps the probe cheap (the same shapes overflow
+	// the default stack at four times the depth).  C13_MAXSTACK_MB overrides.
+	mb := 256
+	if v := os.Getenv("C13_MAXSTACK_MB"); v != "" {
+		fmt.Sscan(v, &mb)
+	}
+	debug.SetMaxStack(mb << 20)
 	_, err := xparser.ParseFile(xtoken.NewFileSet(), "a.xgo", src, 0)
 	if err != nil {
 		fmt.Println("deep-done err")
@@ -566,7 +572,13 @@ func runDeep(n int, budget time.Duration) {
 	}
 	sort.Strings(kinds)
 	for _, k := range kinds {
-		cmd := exec.Command(os.Args[0], "-deepchild", k, "-deepn", fmt.Sprint(n))
+		depth := n
+		if k == "ifelse" || k == "funclit" || k == "blocks" {
+			// one scope per level: identifier resolution walks all of them, time is quadratic in
+			// the depth (terminates; not what this probe looks for)
+			depth = n / 20
+		}
+		cmd := exec.Command(os.Args[0], "-deepchild", k, "-deepn", fmt.Sprint(depth))
 		done := make(chan struct{})
 		var ob []byte
 		var err error
@@ -576,7 +588,7 @@ func runDeep(n int, budget time.Duration) {
 		case <-time.After(budget):
 			cmd.Process.Kill()
 			<-done
-			oracle("hang-deep-"+k, "deep:"+k, []byte(fmt.Sprintf("%s x %d", k, n)), "no result within "+budget.String())
+			oracle("hang-deep-"+k, "deep:"+k, []byte(fmt.Sprintf("%s x %d", k, depth)), "no result within "+budget.String())
 			continue
 		}
 		s := string(ob)
@@ -584,12 +596,13 @@ func runDeep(n int, budget time.Duration) {
 		case strings.Contains(s, "deep-done"):
 			out.Count("deep_ok_" + k)
 		case strings.Contains(s, "stack overflow") || strings.Contains(s, "goroutine stack exceeds"):
-			oracle("stack-overflow-deep-nesting", "deep:"+k, []byte(fmt.Sprintf("%s x %d", k, n)), "fatal: stack overflow (256 MB stack) on nesting depth "+fmt.Sprint(n))
+			out.Count("deep_stack_overflow_" + k)
+			oracle("stack-overflow-deep-nesting", "deep:"+k, []byte(fmt.Sprintf("%s x %d", k, depth)), "fatal error: stack overflow (goroutine stack limit 256 MB) at nesting depth "+fmt.Sprint(depth))
 		default:
 			if len(s) > 300 {
 				s = s[:300]
 			}
-			oracle("crash-deep-"+k, "deep:"+k, []byte(fmt.Sprintf("%s x %d", k, n)), fmt.Sprintf("child failed: %v %s", err, s))
+			oracle("crash-deep-"+k, "deep:"+k, []byte(fmt.Sprintf("%s x %d", k, depth)), fmt.Sprintf("child failed: %v %s", err, s))
 		}
 	}
 }
